@@ -395,7 +395,12 @@ def gen_config(seed: int, tier: str = "quick") -> Dict[str, Any]:
 def gen_loop(seed: int, tier: str = "quick") -> Dict[str, Any]:
     rng = random.Random(sub_seed(seed, "loop"))
     deep = rng.random() < 0.4
-    groups = [None, 0, 1] if deep else [None, 0]
+    cross = (not deep) and rng.random() < 0.3
+    if cross:
+        # the loop runs on the tier of group 1 while its members sit in two sub-groups of it
+        groups = [None, 0, 1, 1]
+    else:
+        groups = [None, 0, 1] if deep else [None, 0]
     if rng.random() < 0.3:
         groups.append(0)                       # a sibling group
     G = 2 if deep else 1
@@ -408,8 +413,12 @@ def gen_loop(seed: int, tier: str = "quick") -> Dict[str, Any]:
         typ = rng.choice(["hybrid", "event-based"])
         beh = {"bseed": rng.randrange(1 << 30), "p_self": 0.0, "self_d": 1, "p_out": 1.0,
                "loop_len": None}
-        s = {"sid": f"L{i}", "type": typ, "group": G, "n_ent": 1, "meta_style": 0,
+        s = {"sid": f"L{i}", "type": typ, "group": (2 + i % 2) if cross else G, "n_ent": 1, "meta_style": 0,
              "transport": pick_weighted(rng, TRANSPORT_MIXES["mixed"]), "beh": beh}
+        if i != 0 and rng.random() < 0.25:
+            # a member that dates (some of) its outputs into the next time step(s)
+            beh["future"] = True
+            beh["p_future"] = rng.choice([0.3, 0.6, 1.0])
         if i == 0:
             beh["loop_len"] = L
             beh["p_self"] = rng.choice([1.0, 1.0, 0.5])
@@ -423,7 +432,7 @@ def gen_loop(seed: int, tier: str = "quick") -> Dict[str, Any]:
     for i in range(nmem):
         j = (i + 1) % nmem
         conns.append({"src": i, "se": 0, "dst": j, "de": 0, "pairs": [["e_out", "t_in"]],
-                      "shift": 0, "weak": j == 0})
+                      "shift": 0, "weak": (j == 0) or (cross and rng.random() < 0.5)})
     # hybrids on the loop step at time 0 by themselves; make their persistent output harmless
     # extras
     for x in range(rng.choice([0, 1, 1, 2])):
@@ -458,7 +467,10 @@ def gen_loop(seed: int, tier: str = "quick") -> Dict[str, Any]:
            "order_seed": rng.choice([None, rng.randrange(1 << 30)]),
            "iteration_cost": rng.choice([0.0, 1e-5])}
     sc = {"groups": groups, "sims": sims, "conns": conns, "until": rng.choice([1, 2, 3, 4]),
-          "config": cfg, "loop": {"M": M, "L": L, "members": nmem, "tier": 2 if deep else 1}}
+          "config": cfg, "loop": {"M": M, "L": L, "members": nmem, "tier": 2 if deep else 1,
+                                  "cross_subgroups": cross}}
+    if rng.random() < 0.3:
+        sc["until"] = rng.choice([6, 7, 8])      # more time steps than max_loop_iterations
     repair_cycles(sc, rng)
     return sc
 
